@@ -43,6 +43,15 @@ CHECKS = {
  "C09": dict(technique="Coq: deep value depends only on reachable objects, a write touches one object (RefOps), byte-level frame lemma; correspondence: copy construction into same buffer / other buffer / other context followed by writes on either side, compared with the store model, final buffers decoded in Coq",
              text="Theorems (closed): the deep value of an object depends only on the objects it reaches; a write changes exactly one object; hence a copy whose referents were duplicated is unaffected by writes to the original and vice versa; a written image leaves all bytes outside its extent alone. Tie: histories with copy construction (shared referents in the same buffer, duplicates otherwise) and subsequent writes/rebinds on either side, over reference-bearing types at any depth incl. arrays of reference-bearing structs; values, aliasing of referents, extent disjointness checked after every step; final buffers decoded in Coq.",
              ref="DESIGN.md §7 C09"),
+ "C02": dict(category="translation_validation", technique="translator from the emitted C text to a straight-line language + certified validator in Coq (normaliser soundness, symbolic execution soundness: validate_sound / cfun_ok_sound) against the documented layout's address expression; cross-checked by really compiled accessors",
+             text="Every accessor the library emits for every access path of generated types (on the current source) is translated (fail closed) and validated inside Coq: an accepted accessor provably computes the layout's address expression for ALL index values and ALL header words (the symbolic form of the claim). The address expression follows the strict decoder of C05. A subset of types is compiled with cffi and get/getp/len/typeid/member are called on real objects at non-zero offsets and compared with the Python accessors.",
+             ref="DESIGN.md §7 C02", note=TB + " Trusted additionally: the C-text translator harness/impl/capi.py (cross-checked by compiled execution) and CExpr.cexec as the semantics of the accessor subset of C."),
+ "C07": dict(category="translation_validation", technique="as C02 for every emitted setter (certified validator) + frame lemma for the store; compiled setters executed on real objects with whole-buffer diff and Python re-read",
+             text="Every emitted setter is validated in Coq to store at exactly the layout's address of the element (all indices, all headers); a store of the value's bytes there provably changes exactly those bytes. Compiled setters are called on real objects: bytes written = value, no byte outside the element changes, Python reads the value back. The 'no undefined behaviour under sanitizers' clause is partial: bounds of header loads follow from the validated address expression on well-formed objects, compiler-level UB is not modelled.",
+             ref="DESIGN.md §7 C07", note=TB + " Partial: sanitizer clause not proved; see DESIGN."),
+ "C15": dict(category="translation_validation", technique="the text each target receives from the real specialize_source is translated separately; certified pairwise equivalence in Coq (cpair_ok_sound); qualifier scan; gcc -fsyntax-only",
+             text="For every emitted accessor the cpu_serial, cpu_openmp, opencl and cuda specialisations are produced by the real specialize_source, translated independently and proved pairwise equivalent inside Coq (same address/value for all indices and memory contents), so C02 transfers to every target. Every pointer cast into object memory in the OpenCL text must carry __global (typedef'd handles: in their typedef). Supporting: gcc -fsyntax-only accepts each specialisation with the target keywords defined away.",
+             ref="DESIGN.md §7 C15", note=TB + " Host-compiler acceptance is a supporting runtime test."),
 }
 NOT_YET = {}
 def main():
